@@ -49,6 +49,17 @@ def case(ctx, i, rec):
     else:
         ts, r = zoo.sim(rng, ploidy=2, n=int(rng.integers(2, 8)), L=float(rng.choice([1e3, 1e4])),
                         mut_per_edge=float(rng.choice([1.0, 5.0, 20.0])))
+    if i % 7 == 6:
+        # some leaf parents become (historical, internal) samples: blocks whose two parents have fixed ages
+        ts, r = zoo.sim(rng, ploidy=2, n=int(rng.integers(2, 6)), mut_per_edge=6.0, L=1e3)
+        leaf_parents = np.unique(ts.edges_parent[np.isin(ts.edges_child, ts.samples())])
+        t_ = ts.dump_tables()
+        fl = t_.nodes.flags
+        pick = rng.choice(leaf_parents, size=max(1, int(len(leaf_parents) * rng.uniform(0.5, 1.0))), replace=False)
+        fl[pick] |= 1
+        t_.nodes.flags = fl
+        ts = t_.tree_sequence()
+        r["gen"] = "leaf_parents_fixed"
     nb = 0
     if i % 2 == 0 and ts.num_trees > 1:
         ts, nb = put_singletons_on_breakpoints(ts, rng, k=int(rng.integers(1, 5)))
@@ -88,6 +99,15 @@ def case(ctx, i, rec):
     unph_edges = np.array([ind_of[c] != tskit.NULL and issample[c] for c in ts.edges_child])
     expected[unph_edges] = 0.0
     phase = np.asarray(fit.mutation_phase, dtype=float)
+    # node posteriors as they were when the singletons were placed (before the rescaling moved them)
+    node_mn, node_va = fit.node_moments()
+    enter = [e for e in events if e[0] == "rescale:enter"]
+    if enter:
+        npost = np.asarray(enter[0][2], dtype=float)
+        free_ = ~issample
+        node_mn, node_va = node_mn.copy(), node_va.copy()
+        node_mn[free_] = (npost[free_, 0] + 1) / npost[free_, 1]
+        node_va[free_] = node_mn[free_] / npost[free_, 1]
     out_nodes = np.asarray(fit.mutation_nodes)
     n_single = n_switched = n_nan = n_bp = 0
     larger_ok = True
@@ -130,6 +150,34 @@ def case(ctx, i, rec):
             expected[e_other] += 1.0 - phase[m]
         if phase[m] < 0.5:
             larger_ok = False
+        # closed form: both candidate branches hang below nodes of fixed age, so the probability of a
+        # branch is its share of the total length and the longer branch is the one to be placed on
+        pa_, pb_ = int(ts.edges_parent[ea]), int(ts.edges_parent[eb])
+        if ea != eb and pa_ != pb_ and issample[pa_] != issample[pb_]:
+            # one branch hangs below a node of fixed age, the other below a dated node: when the posterior
+            # of the dated node (mean +- 3 sd) leaves no doubt about which branch is longer, the singleton
+            # must sit on that one
+            def span_(p_, leaf):
+                if issample[p_]:
+                    return float(ts.nodes_time[p_] - ts.nodes_time[leaf]), float(ts.nodes_time[p_] - ts.nodes_time[leaf])
+                sd = float(np.sqrt(node_va[p_]))
+                return max(float(node_mn[p_]) - 3 * sd, 0.0), float(node_mn[p_]) + 3 * sd
+            (lo_a, hi_a), (lo_b, hi_b) = span_(pa_, a), span_(pb_, b)
+            longer = a if lo_a > hi_b else (b if lo_b > hi_a else None)
+            if longer is not None:
+                rec.count("singletons_with_one_fixed_parent_and_a_clear_longer_branch")
+                if placed != longer:
+                    rec.violation("one-parent-fixed:placed-on-the-clearly-shorter-branch",
+                                  f"mutation {m}: branch lengths {(lo_a, hi_a)} (node {a}) and {(lo_b, hi_b)} (node {b}); "
+                                  f"placed on node {placed} with fitted probability {phase[m]!r}")
+        if ea != eb and pa_ != pb_ and issample[pa_] and issample[pb_]:
+            la, lb = float(ts.nodes_time[pa_] - ts.nodes_time[a]), float(ts.nodes_time[pb_] - ts.nodes_time[b])
+            lp, lo = (la, lb) if placed == a else (lb, la)
+            rec.count("singletons_between_two_fixed_parents")
+            if lp + lo > 0 and abs(phase[m] - lp / (lp + lo)) > 1e-9:
+                rec.violation("both-parents-fixed:phase-is-not-the-branch-length-share",
+                              f"mutation {m}: branches of length {la!r} and {lb!r} below fixed nodes; placed on the one of length {lp!r} "
+                              f"with fitted probability {phase[m]!r}, the exact value is {lp / (lp + lo)!r}")
     rec.count("unphased_singletons", n_single)
     rec.count("switched_singletons", n_switched)
     rec.count("singletons_on_breakpoints", n_bp)
@@ -159,5 +207,7 @@ def case(ctx, i, rec):
 
 def reach(ctx, agg):
     need = {"runs_with_unphased_singletons": 60, "switched_singletons": 100, "runs:segsites=True": 15,
-            "runs:segsites=False": 30, "singletons_on_breakpoints": 20}
+            "runs:segsites=False": 30, "singletons_on_breakpoints": 20,
+            "singletons_between_two_fixed_parents": 10,
+            "singletons_with_one_fixed_parent_and_a_clear_longer_branch": 10}
     return [f"{k} = {agg.cnt.get(k, 0)} < {v}" for k, v in need.items() if agg.cnt.get(k, 0) < v]
